@@ -2082,6 +2082,12 @@ func (f *File) ReadFrom(r io.Reader) (int64, error) {
 			m, err2 := f.writeChunkAt(ch, b[:n], f.offset)
 			f.offset += int64(m)
 
+			if err2 != nil {
+				// A failed write always ends the transfer with its error,
+				// also when the reader has just reported (unexpected) EOF for the final short chunk.
+				return read, err2
+			}
+
 			if err == nil {
 				err = err2
 			}
